@@ -229,7 +229,8 @@ pub const CONTEXTS: [&str; 7] = ["straight-line code", "then branch", "else bran
 
 /// Unrelated, valid declarations placed in front of or behind the program of a cell (contexts
 /// 100 + 2 * bystander + position): the verdict of the cell must not depend on them.
-pub const BYSTANDERS: [(&str, &str); 8] = [
+pub const BYSTANDERS: [(&str, &str); 9] = [
+	("constants named like the structure and the word of the cell", "const S: u8 = 4;\nconst W: u8 = 5;\n"),
 	("function writing through a pointer parameter", "fn by0(p: &i32)\n{\n\tp = 1;\n}\n"),
 	("function with bitwise operators and a comparison", "fn by1(a: u8, b: u8) -> u8\n{\n\tvar c: u8 = a & b;\n\tif c == 0u8\n\t{\n\t\tc = 1;\n\t}\n\treturn: c\n}\n"),
 	("function with casts", "fn by2(a: i64) -> u8\n{\n\tvar b: i32 = a as i32;\n\treturn: b as u8\n}\n"),
